@@ -32,7 +32,7 @@ def run(shard, rec):
     if shard['kind'] == 'fpr':
         from mpyc import finfields
         for l in range(shard['lo'], shard['hi'] + 1):
-            for blum in (True, False):
+            for blum in ((True, False) if l % 2 else (False, True)):      # both call orders occur (results must not depend on call history)
                 for n in NS:
                     case = ['fpr', l, blum, n]
                     if not rec.wants(case):
